@@ -244,6 +244,9 @@ func main() {
 	if *prop == "C15" {
 		os.Exit(runC15(*tier))
 	}
+	if *prop == "C19" {
+		os.Exit(runWireLocator(*prop, *tier))
+	}
 	start := time.Now()
 	scs := scenarios(*prop, *tier == "thorough")
 	if scs == nil {
@@ -282,6 +285,14 @@ func main() {
 		total.Merge(st)
 		per = append(per, desc)
 		all = append(all, vs...)
+		st2, desc2, vs2 := runStalledPart(*prop)
+		if !st2.Exhaustive {
+			total.Exhaustive = false
+			total.CapHit = "stalled-peer: " + st2.CapHit
+		}
+		total.Merge(st2)
+		per = append(per, desc2)
+		all = append(all, vs2...)
 	}
 	if len(total.Samples) > 14 {
 		total.Samples = total.Samples[:14]
